@@ -36,11 +36,17 @@ ChooseComboRx == /\ phase = "op" /\ "like" \in Ops /\ "rx" \in Ops
                  /\ \E o \in {"eq", "like"}, first \in BOOLEAN : (IF first THEN op' = "rx" /\ op2' = o ELSE op' = o /\ op2' = "rx")
                  /\ pat' \in RxComboPats /\ rx' = RxFor(pat') /\ conn' \in {"and", "or"}
                  /\ phase' = "done"
+(* longer wildcard patterns: a one-character wildcard directly after a many-character one (`a*?`, `%__`) *)
+LongPats == { <<"a", "*", "?">>, <<"*", "?", "?">>, <<"*", "?", "a">>, <<"B", "*", "?", "?">>, <<"?", "*", "?">> }
+LikeOf(p) == [i \in 1 .. Len(p) |-> IF p[i] = "*" THEN "%" ELSE IF p[i] = "?" THEN "_" ELSE p[i]]
+ChooseLong == /\ phase = "op" /\ op' \in Ops \cap {"eq", "ne", "like", "notlike"}
+              /\ \E p \in LongPats : pat' = (IF op' \in {"like", "notlike"} THEN LikeOf(p) ELSE p)
+              /\ phase' = "done" /\ UNCHANGED <<rx, op2, conn>>
 AddChar == /\ phase = "build" /\ op \notin {"rx", "notrx"} /\ Len(pat) < MaxLen
            /\ \E c \in PatChars(op) : pat' = Append(pat, c)
            /\ UNCHANGED <<op, rx, phase, op2, conn>>
 AddEl == /\ phase = "build" /\ op \in {"rx", "notrx"} /\ Len(rx.els) < MaxLen
-         /\ \E c \in (IF Len(rx.els) = 0 THEN AlphaSet \cup {"ANY"} ELSE RxChars), q \in {"1", "*", "+", "?"} :
+         /\ \E c \in (IF Len(rx.els) = 0 THEN AlphaSet \cup {"ANY"} ELSE RxChars), q \in {"1", "*", "+", "?", "{2}"} :
               rx' = [rx EXCEPT !.els = Append(@, [ch |-> c, q |-> q])]
          /\ UNCHANGED <<op, pat, phase, op2, conn>>
 Finish == /\ phase = "build"
@@ -50,7 +56,7 @@ Finish == /\ phase = "build"
              ELSE /\ pat # <<>>
                   /\ UNCHANGED <<pat, rx>>
           /\ phase' = "done" /\ UNCHANGED <<op, op2, conn>>
-Next == ChooseOp \/ ChooseCombo \/ ChooseComboRx \/ AddChar \/ AddEl \/ Finish
+Next == ChooseOp \/ ChooseCombo \/ ChooseComboRx \/ ChooseLong \/ AddChar \/ AddEl \/ Finish
 Spec == Init /\ [][Next]_vars
 
 OpTextOf(o) == CASE o = "eq" -> "=" [] o = "like" -> "like" [] o = "eeq" -> "===" [] o = "rx" -> "=~"
